@@ -245,9 +245,10 @@ def check_fit(chk) -> None:
     # fit_to_pdb interpreted as a whole on representative tables (pandas objects: sa/frame.py); the pinned-form versions of the rules
     # it decides are then only fallbacks and are not recorded
     decided = _try(c10e.check_fit_eval) or set()
-    if _try(c10e.check_feasibility_eval):
-        decided = set(decided) | {"feasibility"}  # which quantity meets which limit: evaluated; the pinned counting idiom is not read
-    _check_fit_rest(_Skip(chk, decided) if decided else chk, fi, fm, f, c, _try)
+    feas = bool(_try(c10e.check_feasibility_eval))  # which quantity meets which limit: evaluated; the pinned counting idiom is then not read
+    if feas:
+        decided = set(decided) | {"feasibility"}
+    _check_fit_rest(_Skip(chk, decided) if decided else chk, fi, fm, f, c, _try, feasibility_evaluated=feas)
 
 
 def _enclosing_loop(fn: ast.AST, node: ast.AST) -> Optional[ast.For]:
@@ -354,7 +355,7 @@ def _column_selection_form(chk, fi) -> None:
     chk.expect(sel == want_sel, "column-selection", fi.where, "serial/chain/number/icode columns per format (author items for mmCIF)", "the columns fit_to_pdb renames are not (serial, chainID, resSeq, iCode) / (id, auth_asym_id, auth_seq_id, pdbx_PDB_ins_code)", K(fi, "columns"), found=sel)
 
 
-def _check_fit_rest(chk, fi, fm, f, c, _try) -> None:
+def _check_fit_rest(chk, fi, fm, f, c, _try, feasibility_evaluated: bool = False) -> None:
     from checks import c10e
 
     repo = chk.repo
@@ -369,6 +370,13 @@ def _check_fit_rest(chk, fi, fm, f, c, _try) -> None:
     from sa.defuse import Inliner
 
     inl = Inliner(fi.node)
+    if not feasibility_evaluated:
+        _feasibility_form(chk, fi, inl)
+    _check_fit_rest2(chk, fi, fm, f, c, _try, inl)
+
+
+def _feasibility_form(chk, fi, inl) -> None:
+    """Pinned-form reading of the three refusals (fallback when they are not evaluable on small tables)."""
     checks = {}
     for s in fi.node.body:
         if isinstance(s, ast.If) and s.body and isinstance(s.body[-1], ast.Raise) and isinstance(s.test, ast.Compare):
@@ -385,6 +393,12 @@ def _check_fit_rest(chk, fi, fm, f, c, _try) -> None:
     defs = {nm: norm(astq.first_assign(fi.node, nm)) if astq.first_assign(fi.node, nm) is not None else None for nm in ("unique_chains", "num_chains", "total_atoms")}
     chk.expect(defs == {"unique_chains": "df[chain_col].unique()", "num_chains": "len(unique_chains)", "total_atoms": "len(df)"}, "feasibility", fi.where, "counts: chains = distinct chain ids (order of appearance), atoms = rows", "the counted quantities changed", K(fi, "counts"), found=defs)
     _residue_count(chk, fi)
+
+
+def _check_fit_rest2(chk, fi, fm, f, c, _try, inl) -> None:
+    from checks import c10e
+
+    repo = chk.repo
     # index after the `> 62` guard
     cm = astq.first_assign(fi.node, "chain_mapping")
     guard = [s for s in fi.node.body if isinstance(s, ast.If) and norm(inl.inline(s.test, s, stop=("num_chains", "max_pdb_chains"))) == "num_chains > max_pdb_chains"]
@@ -677,9 +691,9 @@ def run(chk) -> None:
         raise
     except Exception as ex:
         chk.error("fit-before-write", "-", f"path reading of the CLI write paths failed internally ({type(ex).__name__}: {str(ex)[:60]})")
-    from sa import memoshare
+    from checks import w3cross
 
-    memoshare.check(chk, "C10")  # a memoised function must not hand one mutable object to every caller
+    w3cross.check(chk, "C10", untouched=(("parser_v2", "can_write_pdb"), ("parser_v2", "write_pdb")))  # state that survives a call: shared memo results, module-level containers, arguments
 
 
 MANIFEST_ENTRY = {
